@@ -120,10 +120,10 @@ var c06StmtFaults = []struct{ kind, stmt string }{
 	{"scope-exit", "{ ফাংশন hlp() { দেখাও \"h\"; } hlp(); } hlp();"}, {"scope-exit", "যদি (1) { ফাংশন hlp() { ফেরত 1; } দেখাও hlp(); } দেখাও hlp();"}, {"scope-exit", "{ ধরি lv = 1; দেখাও lv; } দেখাও lv;"},
 	{"scope-exit", "ফর (ধরি li = 0; li < 1; li = li + 1) { দেখাও li; } দেখাও li;"}, {"scope-exit", "ফর (ধরি li = 0, lj = 5; li < 1; li = li + 1) { } lj = 1;"}, {"scope-exit", "{ ধরি lv = 1, lw = 2; } দেখাও lw;"}, {"scope-exit", "ফাংশন outerf(pv) { ফাংশন innerf() { ফেরত pv; } ফেরত innerf(); } দেখাও outerf(3); innerf();"},
 	{"scope-exit", "ফাংশন pf(pv) { ফেরত pv; } দেখাও pf(2); দেখাও pv;"}, {"scope-exit", "যতক্ষণ (x < 1) { x = x + 1; ফাংশন wf() { } } wf();"},
-	// names an activation already holds: its parameters and the function's own name live in the scope of the body
-	{"redeclare", "ফাংশন rp(par) { দেখাও \"in-rp\"; ধরি par = par + 1; দেখাও par; } rp(1);"}, {"redeclare", "ফাংশন rq(pa, pb) { ধরি pb; } rq(1, 2);"}, {"redeclare", "ফাংশন rs() { দেখাও \"in-rs\"; ধরি rs = 1; দেখাও rs; } rs();"},
-	{"redeclare", "ফাংশন ro(pv) { ফাংশন ri(pv) { ধরি pv = 2; দেখাও pv; } ri(1); দেখাও \"ro-after\"; } ro(0);"}, {"redeclare", "ফাংশন rf(par) { ফাংশন par() { } দেখাও \"rf-after\"; } rf(1);"},
-	{"redeclare", "ফাংশন tw() { } ফাংশন tw() { } দেখাও \"tw-after\";"}, {"redeclare", "ধরি tv = 1; ফাংশন tv() { } দেখাও \"tv-after\";"}, {"redeclare", "ফাংশন tx() { } ধরি tx = 1; দেখাও \"tx-after\";"},
+	// names an activation already holds: its parameters live in the scope of the body (what a declaration named like the
+	// function itself, or a second function declaration of one name, does is undocumented and left out)
+	{"redeclare", "ফাংশন rp(par) { দেখাও \"in-rp\"; ধরি par = par + 1; দেখাও par; } rp(1);"}, {"redeclare", "ফাংশন rq(pa, pb) { ধরি pb; } rq(1, 2);"},
+	{"redeclare", "ফাংশন ro(pv) { ফাংশন ri(pv) { ধরি pv = 2; দেখাও pv; } ri(1); দেখাও \"ro-after\"; } ro(0);"},
 	{"stray", "থামো;"}, {"stray", "চালিয়ে_যাও;"}, {"stray", "ফেরত 5;"},
 }
 var c06StmtPositions = []struct{ name, text string }{
